@@ -119,8 +119,12 @@ class StackSpec(Spec):
                 return VRef(base.z, "IndexAttr")
             if attr == "data" and base.cls == "IndexAttr":
                 return VInt(REG_INDEX(base.z))
+            if attr == "name" and base.cls in ("type", "RegisterType"):
+                # the register TYPE NAME: the pool key only for families where the two strings coincide (riscv); another string otherwise (x86.reg64 vs x86.reg)
+                return VRef(z3.If(spec.p.same, spec.p.key, z3.Int("type_name_string")), "str")
             return None
 
+        spec = self
         return {"__getattr__": getattr_}
 
     def setup(self, st, inst):
@@ -316,7 +320,7 @@ def _native_stack(tier, seed):
                      "stack and allocatable set after every call, no register handed out twice, reserved registers never popped"}
 
 
-NATIVE = [("allocated-functions", N19.explore), ("register-stack-model", _native_stack), ("reservation-nesting", N19.explore_reservations)]
+NATIVE = [("allocated-functions", N19.explore), ("register-stack-model", _native_stack), ("reservation-nesting", N19.explore_reservations), ("infinite-registers", N19.explore_infinite)]
 
 
 
